@@ -10,7 +10,7 @@ RULE = ('one case = a real datacake_node::Clock actor on a multi-threaded tokio 
 ASSUMPTIONS = ['flume channel is FIFO with a single consumer; a oneshot reply reaches the caller that asked (runtime facts, observed here, not proved)',
                'wall clock injected and constant within a phase, so that the log can be replayed exactly']
 TRUSTED_BASE = ['correspondence: dcharness (real Clock actor, 2 worker threads) vs dcdriver (Datacake.Ts.send/recv folded over the actor log); hooks H1 (wall clock) and H3 (clock event log)']
-THEOREM_NOTE = 'Datacake.Clock.onGet/onRegister/run (Model/Clock.lean) over Datacake.Ts.send/recv; theorems replies_strictly_increasing, per_task_increasing, after_register_greater, legacy_drops_registration'
+THEOREM_NOTE = 'Datacake.Clock.onGet/onRegister/run (Model/Clock.lean) over Datacake.Ts.send/recv; theorems (about Clock.run, the function the driver replays the actor log through) replies_strictly_increasing, per_task_increasing, after_register_greater (no condition on counters; remote strictly inside the drift), register_takes_effect, legacy_drops_registration'
 PROCESS_PER_CASE = False
 JOBS = 4
 SHRINK = False
